@@ -296,6 +296,14 @@ pub fn last_state_proof_mutants(
         p2.reorg.pop();
         out.push(Mutant { label: "reproved.reorg-short-end".into(), attr: "match", msg: reprove(&p2) });
     }
+    // (e') nothing but the reorg section: no sampled and no last-N header at all (the blocks from the start block
+    // up to the last one are never shown)
+    if !plan.reorg.is_empty() {
+        let mut p2 = plan.clone();
+        p2.samples.clear();
+        p2.last_n.clear();
+        out.push(Mutant { label: "reproved.reorg-only".into(), attr: "match", msg: reprove(&p2) });
+    }
     // (f) no-sample mode: the section does not start at the start block / misses its first header
     if plan.samples.is_empty() && plan.last_n.len() >= 2 && plan.last_n[0] == start_number {
         let mut p2 = plan.clone();
